@@ -70,6 +70,25 @@ def build_encoding(ob, work):
     return cfile, info
 
 
+def loop_bounds(ob, cfile):
+    """per-loop unwinding: runtime (rt/) loops get a bound covering slots/buffer depth; translated code gets ob['unwind'];
+    ob['unwind_fn'] = {regex on function name: bound} overrides."""
+    rc, out, err, _ = sh(['cbmc', '--show-loops', '--json-ui', '--drop-unused-functions', '-DWITNESS', cfile], timeout=300)
+    loops = re.findall(r'"name":\s*"([^"]+)",\s*"sourceLocation":\s*\{\s*"file":\s*"([^"]*)",\s*"function":\s*"([^"]*)"', out)
+    rtb = ob.get('rt_unwind', ob.get('nslots', 1) + ob.get('tso', 0) + 4)
+    res = []
+    for name, fil, fn in loops:
+        b = None
+        for rx, v in ob.get('unwind_fn', {}).items():
+            if re.search(rx, fn):
+                b = v
+        if b is None and ('/rt/' in fil or fn.startswith('rt_') or fn.startswith('P_')):
+            b = rtb
+        if b is not None:
+            res.append('%s:%d' % (name, b))
+    return res
+
+
 def cbmc_cmd(ob, cfile, extra=()):
     cmd = list(CBMC_BASE)
     cmd += ['--unwind', str(ob.get('unwind', 4))]
@@ -77,8 +96,9 @@ def cbmc_cmd(ob, cfile, extra=()):
         cmd += ['--unwinding-assertions']
     else:
         cmd += ['--no-unwinding-assertions']
-    for k, v in ob.get('unwindset', {}).items():
-        cmd += ['--unwindset', '%s:%d' % (k, v)]
+    lb = loop_bounds(ob, cfile)
+    if lb:
+        cmd += ['--unwindset', ','.join(lb)]
     cmd += ob.get('cbmc_flags', [])
     cmd += list(extra)
     cmd += ['-DWITNESS', cfile]
